@@ -301,7 +301,8 @@ class _NP(types.ModuleType):
             s = s + d * d
         if n - ddof <= 0:
             ctx().need("var-ddof", False)
-            return SV(t=ctx().fresh("undef", val=float("nan")))
+            # NaN in NumPy; modelled as a deterministic uninterpreted value of the inputs
+            return core._opaque("nan_var", *[e for e in a.a.flat])
         return s / (n - ddof)
 
     @staticmethod
